@@ -3,7 +3,8 @@
    state (density matrix, tracked sign convention) is carried opaquely: what must be shown is
    that restart() recovers EVERY field the step function reads, from the last two snapshots. *)
 From Coq Require Import Reals List Lra Lia.
-From MV Require Import Ops RInst Vec Restart RestartP Stopping StoppingP.
+From MV Require Import Ops RInst Vec Cplx Mat Restart RestartP Stopping StoppingP.
+From MV Require Traj TrajP.
 Import ListNotations.
 Open Scope R_scope.
 
@@ -31,6 +32,16 @@ Theorem C13_same_stopping_step : forall (c : cfg (T:=R)) t0 posf k j, box c = No
   stopP c k (tk c t0 k) (fun i => posf (k + i)%nat) j <-> stopP c 0 t0 posf (k + j).
 Proof. exact stopP_shift. Qed.
 Print Assumptions C13_same_stopping_step.
+
+(* for the concrete loop (Model/Traj.run): running the first k passes, then the remaining ones from the state reached,
+   is the uninterrupted run - same final state, attempt records concatenated.  Together with C13_restart_resumes
+   (the restored object *is* the state reached) this is the restart statement for TrajectorySH *)
+Theorem C13_full_run_splits : forall n m dt poisson (ds1 ds2 : list (Traj.sdata (T:=R))) (s : Traj.tstate (T:=R)),
+  Traj.run ROps n m dt poisson (ds1 ++ ds2) s =
+  let '(s1, a1) := Traj.run ROps n m dt poisson ds1 s in
+  let '(s2, a2) := Traj.run ROps n m dt poisson ds2 s1 in (s2, a1 ++ a2).
+Proof. intros. apply TrajP.run_app. Qed.
+Print Assumptions C13_full_run_splits.
 
 (* PARTIAL: the YAML text round trip of the logged numbers is PyYAML's contract (oracle);
    dt inferred as t_k - t_{k-1} equals dt only up to rounding. *)
